@@ -200,6 +200,12 @@ def c15(ck):
     # max_worker_threads = 0 (a legal value): accepted connections are served and accounted for as with any other limit
     sc.append(("stop_max0_conn", 0, 500, 1, 0, ["100:100:" + ok_req], {"ret": "ok", "not_before": 490, "not_after": 1100, "complete": 1}))
     sc.append(("idle1_max0_conn", 1, None, 1, 0, ["300:100:" + ok_req], {"ret": "Timeout", "not_before": 1250, "not_after": 3200, "complete": 1}))
+    # more connections open than max_worker_threads: the one waiting in the queue is an accepted, unfinished connection like
+    # any other - the server is not idle while it is being served later on, and a newcomer is still accepted and served
+    sc.append(("idle1_max1_queued_conn_outlives_first", 1, None, 1, 1, ["0:600:" + ok_req, "200:2300:" + ok_req, "2100:100:" + ok_req],
+               {"ret": "Timeout", "not_before": 3050, "not_after": 5200, "complete": 3}))
+    sc.append(("idle1_max2_two_queued", 1, None, 2, 2, ["0:500:" + ok_req, "50:500:" + ok_req, "150:1900:" + ok_req, "200:1900:" + ok_req, "1700:100:" + ok_req],
+               {"ret": "Timeout", "not_before": 2650, "not_after": 5000, "complete": 5}))
     # a stop flag that is present but never set changes the poll quantum: the idle countdown must still restart with
     # every accepted connection
     sc.append(("idle1_stopflag_conn_midwindow", 1, 60000, 1, 4, ["700:100:" + ok_req], {"ret": "Timeout", "not_before": 1650, "not_after": 3300, "complete": 1}))
